@@ -194,7 +194,7 @@ fn check_ite(
 fn check_unary_and_atoms(st: &mut Stats) {
     // not / var / mk_const exhaustively over the extreme label set
     for cfg in configs(3) {
-        let env: BDDEnv<usize> = BDDEnv::new();
+        let env: BDDEnv<usize> = Default::default();
         let uni = universe(&cfg, false);
         let n = uni.len() as u32;
         let fa = all_functions(&env, &cfg.la, &uni);
@@ -294,7 +294,8 @@ fn random_part(ctx: &Ctx, job: usize, iters: u64) -> Stats {
     let mut env: BDDEnv<usize> = BDDEnv::new();
     for it in 0..iters {
         if it % 2000 == 0 {
-            env = BDDEnv::new(); // bound the table size; long-lived environments are C13's subject
+            // (both public constructors are used)
+            env = if (it / 2000) % 2 == 0 { BDDEnv::default() } else { BDDEnv::new() }; // bound the table size; long-lived environments are C13's subject
         }
         let nvars = 4 + rng.usize(3);
         let mut uni: Vec<usize> = Vec::new();
@@ -570,17 +571,19 @@ pub fn run(ctx: &Ctx) -> (Stats, Spec) {
         s.merge(named_part(ctx, job, iters / 2));
         s.merge(foreign_part(ctx, job, iters / 20));
         s.merge(weak_hash_part(ctx, job, iters / 4));
+        s.merge(super::wide::wide_job(ctx, "C03", job, iters / 60));
         s
     });
     st.merge(crate::report::merge_all(parts));
 
     let spec = Spec {
-        rule: "exhaustive: every ordered pair (triple for ite) of Boolean functions over 3 (2) variables in every argument position, under 5 label configurations (adjacent, interleaved-disjoint, extreme indices incl. usize::MAX, overlapping, disjoint-nested); random: operands over 4-6 sparse labels built by random routes with overlapping/nested/disjoint supports, BDDEnv<usize>, BDDEnv<NamedSymbol> and an environment over a symbol type whose Hash writes nothing (every same-shape pair of diagrams collides); rounds with operands NOT built by the environment (plain unshared diagrams, dropped after use, thousands of rounds on one environment). distinct = (connective, operand tables, configuration); non-trivial = every operand non-constant.".into(),
+        rule: "exhaustive: every ordered pair (triple for ite) of Boolean functions over 3 (2) variables in every argument position, under 5 label configurations (adjacent, interleaved-disjoint, extreme indices incl. usize::MAX, overlapping, disjoint-nested); random: operands over 4-6 sparse labels built by random routes with overlapping/nested/disjoint supports, BDDEnv<usize>, BDDEnv<NamedSymbol> and an environment over a symbol type whose Hash writes nothing (every same-shape pair of diagrams collides); rounds with operands NOT built by the environment (plain unshared diagrams, dropped after use, thousands of rounds on one environment). distinct = (connective, operand tables, configuration); non-trivial = every operand non-constant. MANY VARIABLES: the same judgement on environments with 65-200 variables (more than a machine word of them), where operands are random DNFs and results are compared pointwise on 48 sampled assignments per case (biased towards the operands' cubes) and walked for order / reduction.".into(),
         assumptions: vec![
             "operands are diagrams produced by the same environment over a common variable order (the statement's precondition)".into(),
             "the value of a diagram is read by following T/F edges from the root (tt_of_bdd), independent of any engine operation".into(),
         ],
         floors: vec![
+            ("many_variable_cases".into(), 1_000, "environments with more than 64 variables never exercised".into()),
             ("op_and".into(), 1000, "and never exercised".into()),
             ("op_ite".into(), 1000, "ite never exercised".into()),
             ("op_not".into(), 100, "not never exercised".into()),
@@ -594,6 +597,10 @@ pub fn run(ctx: &Ctx) -> (Stats, Spec) {
 }
 
 pub fn replay(_ctx: &Ctx, _monitor: &str, case: &Value, st: &mut Stats) {
+    if case.get("kind").and_then(|k| k.as_str()) == Some("wide") {
+        super::wide::replay_wide(_ctx, "C03", case, st);
+        return;
+    }
     let kind = case.get("kind").and_then(|k| k.as_str()).unwrap_or("");
     let uni: Vec<usize> = case
         .get("universe")
